@@ -2,3 +2,5 @@
 import Juniper.Props.C04
 import Juniper.Props.C15Deque
 import Juniper.Props.C19
+import Juniper.Props.C10
+import Juniper.Props.C10Chan
